@@ -746,3 +746,32 @@ Proof.
       rewrite Wb, Bl0, Ws4, Sm0, Hfn, !upd_same, upd_other by auto. intros Hq.
       destruct (chand x t); try contradiction; try discriminate; intuition.
 Qed.
+
+Lemma step_KfState f tl :
+  stk (gb x) t = stk_of (PK (KfState f) tl) -> L (view_of x t) (PK (KfState f) tl) ->
+  X x t (PK (KfState f) tl) -> Inv (gstep x t).
+Proof.
+  intros Hs HL HX. cbn in HX.
+  assert (Hex : extra (stk (gb x) t) = []) by (rewrite Hs; reflexivity).
+  destruct (fstate m f =? ST_WAITING) eqn:E.
+  - gred Hs. cbn. rewrite E. cbn. apply Z.eqb_eq in E.
+    apply (inv_local x t _ _ (PK (KfReady f) tl) HI); [loc_tac|reflexivity|rewrite Hs; reflexivity|exact HL| |auto|].
+    + split; [exact HX|exact E].
+    + intros Hd. destruct (popping_no_debt _ _ HX Hd).
+  - unfold gstep, step. rewrite Hs. cbn [stk_of kframes app]. cbn -[ksched]. rewrite E.
+    destruct (ksched _ _ _ _ _ _ _ _ _ _) as [[m1 e1] s1] eqn:EK. cbn.
+    apply Z.eqb_neq in E.
+    apply (deliver_k f tl (KfState f) m _ _ _ _ _ _ Hex HL HX (or_introl (conj eq_refl E)) EK).
+Qed.
+
+Lemma step_KfReady f tl :
+  stk (gb x) t = stk_of (PK (KfReady f) tl) -> L (view_of x t) (PK (KfReady f) tl) ->
+  X x t (PK (KfReady f) tl) -> Inv (gstep x t).
+Proof.
+  intros Hs HL HX. destruct HX as [HX E].
+  assert (Hex : extra (stk (gb x) t) = []) by (rewrite Hs; reflexivity).
+  unfold gstep, step. rewrite Hs. cbn [stk_of kframes app]. cbn -[ksched].
+  destruct (ksched _ _ _ _ _ _ _ _ _ _) as [[m1 e1] s1] eqn:EK. cbn.
+  apply (deliver_k f tl (KfReady f) _ _ _ _ _ _ _ Hex HL HX (or_intror (conj eq_refl E)) EK).
+Qed.
+End Nodes.
